@@ -304,7 +304,7 @@ def directed(rng):
     for k9 in range(3):
         n9 = rng.choice([6, 8])
         iv = rng.choice([15, 60])
-        start = datetime.datetime(2023, 1, 2, 8, 0)
+        start = datetime.datetime.fromisoformat("2023-01-02T08:00:00" + scen.TZ)
         lim = rng.choice([10, 16])
         fixed = rng.choice([0, 2, 3])
         nv = rng.choice([2, 3])
@@ -341,7 +341,7 @@ def directed(rng):
     # full on a tapering curve, the others want more than the head room (round-3 seed C04-s8); half the cases with a limit signal
     for k10 in range(2):
         n10 = rng.choice([6, 8])
-        start = datetime.datetime(2023, 1, 2, 8, 0)
+        start = datetime.datetime.fromisoformat("2023-01-02T08:00:00" + scen.TZ)
         rating = 20
         js = {"scenario": {"start_time": scen.iso(start), "interval": 60, "n_intervals": n10},
               "components": {
